@@ -673,6 +673,51 @@ func entryPointsScenario(x *explore.X) {
 	x.Outcome(fmt.Sprintf("%s/%v", sc.name, viaPool))
 }
 
+// overrideScenario (round 9): a script may declare a function under the name of a predefined helper; under standard PAC
+// semantics (one global scope) the script's definition is the one its entry point calls. Through the pool a resolver
+// is used again and again: the n-th evaluation answers like the first, and like a plain resolver.
+func overrideScenario(x *explore.X) {
+	helpers := []struct{ name, decl, call, want string }{
+		{"myIpAddress", `function myIpAddress() { return "198.51.100.7"; }`, `myIpAddress()`, "198.51.100.7"},
+		{"dnsResolve", `function dnsResolve(h) { return "203.0.113." + h.length; }`, `dnsResolve(host)`, "203.0.113.6"},
+		{"shExpMatch", `function shExpMatch(a, b) { return "mine"; }`, `shExpMatch(host, "*")`, "mine"},
+		{"isInNet", `function isInNet(a, b, c) { return "mine-too"; }`, `isInNet(host, "1.2.3.4", "255.0.0.0")`, "mine-too"},
+		{"dnsDomainIs", `function dnsDomainIs(a, b) { return "always"; }`, `dnsDomainIs(host, ".nowhere")`, "always"},
+		{"isPlainHostName", `var isPlainHostName = function(h) { return "as-variable"; };`, `isPlainHostName(host)`, "as-variable"},
+	}
+	h := helpers[x.ChooseFree("overridden-helper", len(helpers))]
+	evals := 1 + x.ChooseFree("evaluations-1", 3)
+	viaPool := x.ChooseFree("through-the-pool", 2) == 1
+	script := h.decl + "\nfunction FindProxyForURL(url, host) { return \"PROXY \" + " + h.call + " + \".test:1\"; }"
+	cfg := &ProxyResolverConfig{Script: script, testingLookupIP: lookup, testingMyIPAddress: []net.IP{net.ParseIP("10.0.0.1")}, testingMyIPAddressEx: []net.IP{net.ParseIP("10.0.0.1")}}
+	var find func(u *url.URL, hint string) (string, error)
+	if viaPool {
+		p, err := NewProxyResolverPool(cfg, nil)
+		if err != nil {
+			x.Failf("override/new", "%v\n%s", err, script)
+			return
+		}
+		find = p.FindProxyForURL
+	} else {
+		r, err := NewProxyResolver(cfg, nil)
+		if err != nil {
+			x.Failf("override/new", "%v\n%s", err, script)
+			return
+		}
+		find = r.FindProxyForURL
+	}
+	want := "PROXY " + h.want + ".test:1"
+	for k := 1; k <= evals; k++ {
+		got, err := find(&url.URL{Scheme: "http", Host: "a.test", Path: "/"}, "")
+		x.Check()
+		if err != nil || got != want {
+			x.Failf("override/script-definition-not-used", "script declares its own %s; evaluation %d of %d (through the pool: %v) returned %q, %v; want %q", h.name, k, evals, viaPool, got, err, want)
+			return
+		}
+	}
+	x.Outcome(fmt.Sprintf("%s/%d/%v", h.name, evals, viaPool))
+}
+
 func poolScenario(x *explore.X) {
 	ncall := 2 + x.ChooseFree("callers-2", 2)
 	var mu sync.Mutex
@@ -836,6 +881,7 @@ func TestC14(t *testing.T) {
 	s.Assume = []string{"reference helper semantics: Netscape PAC text / Mozilla ascii_pac_utils.js / Chromium on the domain where they agree (see DESIGN.md)", "goja executes the JavaScript; the harness scripts DNS through the package's testingLookupIP seam"}
 	s.Add(explore.Scenario{Name: "helpers", Run: helperScenario})
 	s.Add(explore.Scenario{Name: "my-ip", Run: myIPScenario})
+	s.Add(explore.Scenario{Name: "script-overrides-a-helper", Run: overrideScenario})
 	s.Add(explore.Scenario{Name: "helper-sequences-quick", Tiers: []string{"quick"}, Run: func(x *explore.X) { sequenceScenario(x, 2) }})
 	s.Add(explore.Scenario{Name: "result-and-entry-point", Run: resultScenario})
 	s.Add(explore.Scenario{Name: "trees-quick", Tiers: []string{"quick"}, Run: func(x *explore.X) { treeScenario(x, false) }})
